@@ -465,14 +465,14 @@ PROPS = {
     ),
     "C03": dict(
         lean="AnyDB.Props.C03",
-        lean_extra=["AnyDB.Props.C03Write"],
+        lean_extra=["AnyDB.Props.C03Write", "AnyDB.Props.C03Refine"],
         runs=[
             Run("vec", "plain", ["--mode", "plain"], (168, 50), (2800, 160), proj_vec, ["C03", "panic"], vec_features),
             Run("vec", "refusals", ["--mode", "refusals"], (56, 40), (700, 100), proj_vec, ["C03", "panic"], vec_features),
         ],
         rule=VEC_RULE,
         assumptions=["pco / lz4_flex / zstd round-trip every page (sampled here, never proved)", "regions behave like independent byte vectors (C01)"],
-        level_text="Lean 4 theorems over the executable model of the raw and compressed vectors (Model/Vec.lean): push appends exactly one element and touches no other index; an accepted update shows the new value at its index — stored, buffered or previously deleted — and touches no other; delete hides exactly its index; truncate cuts the length to min(n, len) for both kinds; a checked push at the wrong index is refused with the state unchanged; stamps change only through stamped writes. The write step of the raw formats is proved too (Props/C03Write.lean): after a successful write() every index reads exactly what it read before — buffered elements are in the region, overlaid ones stored in place, deleted ones still deleted (C03_write_preserves, for every state whose stored length lies inside the region and whose overlay is a sorted map over stored slots; that invariant holds initially and is kept by push, update, delete, truncate: updInv_*). The compressed write() (page regimes) rests on C07's lossless theorems; reset and re-import are validated by the lock-step correspondence only: 14 real format×type vectors = compiled model = independent reference list after every request.",
+        level_text="Lean 4 theorems over the executable model of the raw and compressed vectors (Model/Vec.lean): push appends exactly one element and touches no other index; an accepted update shows the new value at its index — stored, buffered or previously deleted — and touches no other; delete hides exactly its index; truncate cuts the length to min(n, len) for both kinds; a checked push at the wrong index is refused with the state unchanged; stamps change only through stamped writes. The write step of the raw formats is proved too (Props/C03Write.lean): after a successful write() every index reads exactly what it read before — buffered elements are in the region, overlaid ones stored in place, deleted ones still deleted (C03_write_preserves, for every state whose stored length lies inside the region and whose overlay is a sorted map over stored slots; that invariant holds initially and is kept by push, update, delete, truncate: updInv_*). On top of these, the raw formats are proved as a REFINEMENT for every plain history (Props/C03Refine.lean, C03_refinement_raw): after any sequence of pushes, updates (accepted or refused), deletions, truncations and writes from the empty vector, what the vector shows at every index equals the same sequence folded over a plain list of optional values, with no hypothesis on the history (write() cannot fail under the invariant: writeRaw_ok). The compressed write() (page regimes) rests on C07's lossless theorems; reset and re-import are validated by the lock-step correspondence only: 14 real format×type vectors = compiled model = independent reference list after every request.",
         level_note="Trusted: Lean kernel + standard axioms; hand-written model tied to /repo by the differential run; compressor libraries; harness glue. Two defects of the pinned tree found by this check were repaired by fix: commits (update of a deleted buffered element; compressed reset+write left the stored pages) — known_findings.json.",
         technique="Lean 4 proof of the per-operation laws of the vector model + lock-step correspondence against real vectors of all five formats and a reference-list oracle",
     ),
